@@ -141,4 +141,51 @@ def srunLenient (k : Nat) : SSt → List SLabel → SSt
     | some s' => srunLenient k s' ls
     | none => srunLenient k s ls
 
+
+/-! ### the JSON targeter with the reader's buffer made explicit
+
+The JSON targeter decodes OUTSIDE the lock.  That is sound only because `ReadBytes` hands the
+caller its own copy of the line.  Here the reader's internal buffer is part of the shared state:
+with `fresh = true` a `lock` step gives the caller a copy (`own`), with `fresh = false` it gives
+a window into the buffer (`window`, what `ReadSlice` would do), which the next read overwrites. -/
+
+inductive Line where
+  | own : Bytes → Line
+  | window : Line
+  deriving Repr, DecidableEq
+
+structure BSt where
+  rest : Bytes                    -- input the reader has not delivered yet
+  buf  : Bytes                    -- the line last read, in the reader's buffer
+  loc  : List (Local Line)
+  log  : List (Ev JSONTargets.JRec)
+  deriving Repr
+
+def binit (src : Bytes) (callers : Nat) : BSt :=
+  { rest := src, buf := [], loc := List.replicate callers .idle, log := [] }
+
+def bstep (cfg : JSONTargets.Cfg) (fresh : Bool) (s : BSt) : Label → Option BSt
+  | .lock c =>
+    match s.loc[c]? with
+    | some .idle =>
+      match JSONTargets.popLine (s.rest.length + 1) s.rest with
+      | (none, rest') => some { s with rest := rest', log := s.log ++ [.exhausted c] }
+      | (some d, rest') =>
+        some { s with rest := rest', buf := d, loc := s.loc.set c (.holding (if fresh then .own d else .window)) }
+    | _ => none
+  | .finish c =>
+    match s.loc[c]? with
+    | some (.holding (.own d)) =>
+      some { s with loc := s.loc.set c .idle, log := s.log ++ [.result c (JSONTargets.finish cfg d)] }
+    | some (.holding .window) =>
+      -- decodes whatever the buffer holds NOW
+      some { s with loc := s.loc.set c .idle, log := s.log ++ [.result c (JSONTargets.finish cfg s.buf)] }
+    | _ => none
+
+def brun (cfg : JSONTargets.Cfg) (fresh : Bool) : BSt → List Label → Option BSt
+  | s, [] => some s
+  | s, l :: ls => match bstep cfg fresh s l with
+    | some s' => brun cfg fresh s' ls
+    | none => none
+
 end Vegeta.Model.TargeterConc
